@@ -86,6 +86,15 @@ Section WithLaw.
     | BrCons c b bs' => if holds c s then Some (exec_block b s) else exec_branches bs' s
     end.
 
+  Lemma exec_stmt_if bs els s :
+    exec_stmt (SIf bs els) s = match exec_branches bs s with Some d => d | None => exec_block els s end.
+  Proof. reflexivity. Qed.
+  Lemma exec_block_cons st b s : exec_block (BCons st b) s = bind (exec_stmt st s) (exec_block b).
+  Proof. reflexivity. Qed.
+  Lemma exec_branches_cons c b bs s :
+    exec_branches (BrCons c b bs) s = if holds c s then Some (exec_block b s) else exec_branches bs s.
+  Proof. reflexivity. Qed.
+
   Definition iter (p : prog) (s : state) : dist state :=
     if holds (p_guard p) s then exec_block (p_body p) s else ret s.
 
